@@ -217,6 +217,9 @@ impl<T: Clone> Change<T> {
     /// Returns the underlying changed value as mutable reference.
     pub fn value_mut(&mut self) -> (res: &mut T)
     /*@*/     ensures *res == (*old(self)).sp_value(),
+    /*@*/         // what is written through the returned reference becomes the value; nothing else changes
+    /*@*/         (*final(self)).sp_value() == *final(res), (*final(self)).sp_tag() == (*old(self)).sp_tag(),
+    /*@*/         (*final(self)).sp_old_index() == (*old(self)).sp_old_index(), (*final(self)).sp_new_index() == (*old(self)).sp_new_index(),
     {
         &mut self.value
     }
